@@ -406,6 +406,7 @@ fn main() {
         let loss: u64 = match shape { "lossy" => 25, "calm" | "timed" => 0, _ => 8 };
         let max_steps = if timed { 6000 } else if args.thorough { 2500 } else { 1500 };
         let mut pending_blocks: Vec<(usize, usize)> = Vec::new(); // (dest node, hash): block delivery to votor+pool
+        let mut timer_rr: usize = 0;
         let max_window = if args.thorough { 6 } else { 4 };
         for step in 0..max_steps {
             // ---- block production: a window whose leader is correct is produced once the leader's pool has a ready parent
@@ -484,9 +485,12 @@ fn main() {
                 if fire {
                     let live: Vec<usize> = (0..n).filter(|j| w.nodes[*j].as_ref().is_some_and(|nd| !nd.dead) && !w.crashed[*j]).collect();
                     if !live.is_empty() {
-                        let j = *rng.pick(&live);
+                        // timed mode: every (node, slot) timer comes due in turn (fair: an idle network lets *all* timers
+                        // expire, not a random few — a random choice can starve one node's timer until the step budget ends)
+                        timer_rr += 1;
+                        let j = if timed { live[timer_rr % live.len()] } else { *rng.pick(&live) };
                         let fin = w.nodes[j].as_ref().expect("node").pool.finalized_slot().inner();
-                        let s = fin + 1 + rng.below(2 * W);
+                        let s = if timed { fin + 1 + ((timer_rr / live.len()) as u64) % (2 * W) } else { fin + 1 + rng.below(2 * W) };
                         let crashed_leader = rng.chance(1, 3);
                         let op = if crashed_leader { format!("tc {j} {s}") } else { format!("to {j} {s}") };
                         w.votor_event(j, op, &mut rng, loss, |v, rt| rt.block_on(v.verif_timeout(Slot::new(s), crashed_leader)));
